@@ -7,6 +7,7 @@ import (
 	"github.com/ovh/kmip-go/ttlv"
 	"sort"
 	"strings"
+	"time"
 
 	"github.com/ovh/kmip-go"
 	"github.com/ovh/kmip-go/kmipserver"
@@ -64,7 +65,10 @@ type c09case struct {
 	withIDs bool
 	verIdx  int // 0: 1.3 (or 3.7 when badVer); otherwise index into c09Versions
 	cfgIdx  int // index into c09Configs (0 = executor left on its defaults)
+	ctxMode int // state of the context HandleRequest is called with: 0 live, 1 already cancelled, 2 deadline already expired, 3+i cancelled by the handler of item i
 }
+
+var c09CtxNames = []string{"live", "already cancelled", "deadline already expired", "cancelled during item 0", "cancelled during item 1"}
 
 // request versions and executor configurations of the version x configuration part
 var c09Versions = []kmip.ProtocolVersion{{}, {ProtocolVersionMajor: 0, ProtocolVersionMinor: 0}, kmip.V1_0, kmip.V1_2, kmip.V1_4, {ProtocolVersionMajor: 3, ProtocolVersionMinor: 7}, {ProtocolVersionMajor: 1, ProtocolVersionMinor: 5}, {ProtocolVersionMajor: 0, ProtocolVersionMinor: 4}}
@@ -97,6 +101,9 @@ func (k c09case) String() string {
 		v := k.version()
 		ext = fmt.Sprintf(" version=%d.%d executor=SetSupportedProtocolVersions%v", v.ProtocolVersionMajor, v.ProtocolVersionMinor, c09Configs[k.cfgIdx])
 	}
+	if k.ctxMode > 0 {
+		ext += " context=" + c09CtxNames[k.ctxMode]
+	}
 	return fmt.Sprintf("items=[%s] option=%d unsupportedVersion=%v countDelta=%+d ids=%v%s", strings.Join(it, ","), k.option, k.badVer, k.countD, k.withIDs, ext)
 }
 
@@ -107,7 +114,7 @@ func runC09(c *vlib.Check) {
 	}
 	c.Rule = fmt.Sprintf("explicit-state enumeration: every batch of length 0..%d x continuation option {unset, Continue, Stop, Undo} x per-item outcome {success, typed error, plain error, panic, "+
 		"unrouted operation, critical extension, non-critical extension, built-in Discover Versions without / with a version filter} x {supported, unsupported} version x batch count {match, +1, -1} x {with, without} item IDs, each run on the real "+
-		"BatchExecutor.HandleRequest and compared field by field (and by handler call log) with a reference executor; extension x kind part: every item kind x {non-critical, critical} message extension in batches of length <= 2; version x configuration part: request versions {0.0, 1.0, 1.2, 1.4, 3.7, 1.5, 0.4} x executors {default, SetSupportedProtocolVersions with the full, a singleton, a gapped and a duplicated list} x batches of length <= 2 (rejected iff the version is not in the configured set); history part: every ordered pair of such requests of length <= %d through one executor (the outcome of a request must not depend on the requests the executor processed before); states = distinct (batch, configuration) cases, transitions = handler calls + response items compared", maxLen, histLen)
+		"BatchExecutor.HandleRequest and compared field by field (and by handler call log) with a reference executor; extension x kind part: every item kind x {non-critical, critical} message extension in batches of length <= 2; version x configuration part: request versions {0.0, 1.0, 1.2, 1.4, 3.7, 1.5, 0.4} x executors {default, SetSupportedProtocolVersions with the full, a singleton, a gapped and a duplicated list} x batches of length <= 2 (rejected iff the version is not in the configured set); context part: batches of length <= 2 handled with a context that is already cancelled / past its deadline / cancelled by the handler of item 0 or 1 (same reference: the state of the caller's context is not among the causes of rejection); history part: every ordered pair of such requests of length <= %d through one executor (the outcome of a request must not depend on the requests the executor processed before); states = distinct (batch, configuration) cases, transitions = handler calls + response items compared", maxLen, histLen)
 	c.Assumptions = []string{"when several rejection causes apply at once the property does not say which reason is reported: only 'single failed item, no handler executed' is required",
 		"'random longer batches' of the quantifier are not covered (sampling is another technique); the exhaustive length bound is stated in the rule"}
 	var cases []c09case
@@ -172,6 +179,21 @@ func runC09(c *vlib.Check) {
 	}
 	vlib.Parallel(len(vcases), 0, func(i int) { c09One(c, vcases[i], 1) })
 	c.Extra["version_x_configuration_cases"] = len(vcases)
+	// context part: the same batches of length <= 2 (well-formed header) handled with a context that is already cancelled, already
+	// past its deadline, or cancelled by the handler of item 0 / item 1: same reference
+	var ccases []c09case
+	for _, k := range cases {
+		if len(k.items) == 0 || len(k.items) > 2 || k.badVer || k.countD != 0 {
+			continue
+		}
+		for m := 1; m < len(c09CtxNames); m++ {
+			kk := k
+			kk.ctxMode = m
+			ccases = append(ccases, kk)
+		}
+	}
+	vlib.Parallel(len(ccases), 0, func(i int) { c09One(c, ccases[i], 1) })
+	c.Extra["context_cases"] = len(ccases)
 	// history part: every ordered pair of requests from the cases of length <= histLen, both through ONE executor; the
 	// second response (and the first) must satisfy the same reference as on a fresh executor
 	var hcases []c09case
@@ -194,19 +216,21 @@ func runC09(c *vlib.Check) {
 		})
 	})
 	c.Extra["history_pairs"] = pairs
-	c.States = int64(len(cases)+len(vcases)+len(ecases)) + pairs
-	c.Traces = int64(len(cases)+len(vcases)+len(ecases)) + 2*pairs
+	c.States = int64(len(cases)+len(vcases)+len(ecases)+len(ccases)) + pairs
+	c.Traces = int64(len(cases)+len(vcases)+len(ecases)+len(ccases)) + 2*pairs
 	c.Exhaustive = true
 }
 
 // c09Exec is one real executor with its handler call log.
 type c09Exec struct {
-	exec  *kmipserver.BatchExecutor
-	calls []int
+	exec     *kmipserver.BatchExecutor
+	calls    []int
+	cancelAt int // item whose handler cancels the request's context (-1: none)
+	cancel   context.CancelFunc
 }
 
 func newC09Exec(cfgIdx ...int) *c09Exec {
-	x := &c09Exec{exec: kmipserver.NewBatchExecutor()}
+	x := &c09Exec{exec: kmipserver.NewBatchExecutor(), cancelAt: -1}
 	if len(cfgIdx) > 0 && c09Configs[cfgIdx[0]] != nil {
 		x.exec.SetSupportedProtocolVersions(append([]kmip.ProtocolVersion{}, c09Configs[cfgIdx[0]]...)...)
 	}
@@ -214,6 +238,9 @@ func newC09Exec(cfgIdx ...int) *c09Exec {
 		var i, o int
 		fmt.Sscanf(req.UniqueIdentifier, "%d:%d", &i, &o)
 		x.calls = append(x.calls, i)
+		if i == x.cancelAt && x.cancel != nil {
+			x.cancel()
+		}
 		switch o & 15 {
 		case oTyped:
 			return nil, kmipserver.Errorf(kmip.ResultReasonItemNotFound, "typed")
@@ -276,10 +303,25 @@ func c09Check(c *vlib.Check, x *c09Exec, k c09case, history string) {
 		rep["history"] = history
 	}
 	var resp *kmip.ResponseMessage
-	if pv, site := vlib.Catch(func() { resp = exec.HandleRequest(context.Background(), req) }); pv != nil {
+	// what happens to a batch does not depend on the state of the caller's context: the handlers decide what they do with it
+	ctx, cancel := context.WithCancel(context.Background())
+	x.cancelAt, x.cancel = -1, nil
+	switch {
+	case k.ctxMode == 1:
+		cancel()
+	case k.ctxMode == 2:
+		var c2 context.CancelFunc
+		ctx, c2 = context.WithDeadline(ctx, time.Unix(1, 0))
+		defer c2()
+	case k.ctxMode >= 3:
+		x.cancelAt, x.cancel = k.ctxMode-3, cancel
+	}
+	defer cancel()
+	if pv, site := vlib.Catch(func() { resp = exec.HandleRequest(ctx, req) }); pv != nil {
 		c.Violation("panic:"+site, fmt.Sprintf("HandleRequest panicked: %v on %s", pv, k), rep)
 		return
 	}
+	x.cancelAt, x.cancel = -1, nil
 	calls := x.calls
 	fail := func(sig, format string, a ...any) {
 		if history != "" {
